@@ -8,3 +8,9 @@ let () = register "banner" (fun toks ->
       let l = entry_banner (m = "1") (List.map (fun b -> b = "1") bits) in
       print_endline (if l = [] then "-" else String.concat " " (List.map (fun x -> string_of_int (int_of_n x)) l))
     | _ -> print_endline "?bad banner line")
+
+(* Line: banneruri <urimasked01> <redis.uri as hex>  ->  the redis.uri field of the banner, as hex ("-" if empty) *)
+let () = register "banneruri" (fun toks ->
+    match toks with
+    | [m; uri] -> print_bytes (entry_banner_uri (m = "1") (bytes_of_hex uri))
+    | _ -> print_endline "?bad banneruri line")
